@@ -2,7 +2,7 @@
     (codec and layout part; load = two reads on a source is C11, the empty
     results are covered there by ONone and by the correspondence runs). *)
 From Coq Require Import ZArith List Bool.
-From AV Require Import Base.PyList Tok.Model Audio.Pcm IO.Wav IO.WavProofs IO.Source IO.SourceProofs.
+From AV Require Import Base.PyList Base.PyFloat Tok.Model Audio.Pcm IO.Wav IO.WavProofs IO.Source IO.SourceProofs IO.Load IO.LoadProofs.
 Import ListNotations.
 Open Scope Z_scope.
 
@@ -32,8 +32,33 @@ Theorem C18_load_is_slice : forall B (a : audio B) s ns, wfa a -> binv a s -> is
   /\ pos s <= pos s' /\ is_open s' = true.
 Proof. exact SourceProofs.C11_reads_contiguous. Qed.
 
+(** load(skip, max_read) on the eager path (core._read_offline, tied to IO/Load.v by translation on every run): the data are the
+    samples [m1, m1 + m2) of the audio, where m1 is the skip request clamped to the N samples there are and m2 the size request
+    clamped to what is left (everything left for None or a negative request) -- the Python slice of the sample sequence at the
+    requested instants; the requests are round(skip * rate) (no skipping read unless skip > 0) and round(max_read * rate) *)
+Theorem C18_offline_data_is_slice : forall B (a : audio B) (sk mr : option Z), wfa a ->
+  let N := nsamples a in
+  let m1 := match sk with Some k => if k <? 0 then N else Z.min k N | None => 0 end in
+  let m2 := match mr with Some k => if k <? 0 then N - m1 else Z.min k (N - m1) | None => N - m1 end in
+  offline_data a sk mr = zslice (abytes a) (m1 * abps a) ((m1 + m2) * abps a)
+  /\ 0 <= m1 <= N /\ 0 <= m2 /\ m1 + m2 <= N.
+Proof. exact (@offline_data_is_slice). Qed.
+
+Theorem C18_read_offline_requests : forall B (a : audio B) skip max_read d, wfa a ->
+  read_offline a skip max_read = Ok d ->
+  exists sk mr, offline_requests (arate a) skip max_read = Ok (sk, mr) /\ d = offline_data a sk mr.
+Proof. exact (@read_offline_is_slice). Qed.
+
+(** non-vacuity: 10 one-byte samples at 4 Hz, skip 0.6 s (2.4 -> 2 samples), max_read 1.3 s (5.2 -> 5 samples) *)
+Example C18_offline_example :
+  read_offline (mkAudio [0;1;2;3;4;5;6;7;8;9] 4 1) (Some (of_me 5404319552844595 (-53))) (Some (of_me 5854679515581645 (-52)))
+  = Ok [2;3;4;5;6].
+Proof. vm_compute. reflexivity. Qed.
+
 Print Assumptions C18_wav_roundtrip.
 Print Assumptions C18_wav_roundtrip_iff.
 Print Assumptions C18_header_length.
 Print Assumptions C18_numpy_layout.
 Print Assumptions C18_load_is_slice.
+Print Assumptions C18_offline_data_is_slice.
+Print Assumptions C18_read_offline_requests.
